@@ -48,7 +48,8 @@ FILLERS = {
     "\"aé\"": '"a\u00e9bcd"',
     "Pa() AS MyType": "Pa() AS MyType", "Pr AS MyType": "Pr AS MyType", "Pi() AS INTEGER": "Pi() AS INTEGER", "Ps$()": "Ps$()",
     "Pn AS LONG": "Pn AS LONG", "Pu AS Undef": "Pu AS Undef", "Pq%()": "Pq%()",
-    "#99999999999": "#99999999999", "#256": "#256", "#0": "#0", "#-1": "#-1", "#1.5": "#1.5", "#N%": "#N%", "#": "#",
+    "#99999999999": "#99999999999", "#256": "#256", "#0": "#0", "#-1": "#-1", "#1.5": "#1.5", "#N%": "#N%", "#": "#", "#Arr(1)": "#Arr(1)", "#Rec.X": "#Rec.X", "#(1)": "#(1)", "#1 + 1": "#1 + 1", "#MyConst": "#MyConst",
+    "#S$": "#S$", "#D#": "#D#",
     "(Arr())": "(Arr())", "ArrS$()": "ArrS$()", "RecArr()": "RecArr()", "Arr(1)()": "Arr(1)()",
     "FxArr()": "FxArr()", "(FxArr())": "(FxArr())", "FxArr(1)": "FxArr(1)",
     "My.Const": "My.Const", "My.Const%": "My.Const%", "MY.CONST": "MY.CONST", "My.Const.X": "My.Const.X",
@@ -86,6 +87,8 @@ TEMPLATES = {
     "field-two": ['OPEN "R.DAT" FOR RANDOM AS #1 LEN = 8', "FIELD #1, {1} AS F$", "FIELD #1, {2} AS G$, 4 AS H$", "GET #1, 1", "PRINT F$; G$; H$"],
     "dotted-const-assign": ["CONST My.Const = 1", "{1} = 2"], "dotted-const-input": ["CONST My.Const = 1", "READ {1}", "DATA 5"],
     "arr-arg": ["MyArrSub {1}"], "str-arr-arg": ["DIM FxArr(2) AS STRING * 3", "MyStrArrSub {1}"], "close-n": ["CLOSE {1}"], "print-n": ["PRINT {1}, 1"], "input-n": ["INPUT {1}, N%"], "get-n": ["GET {1}, 1"],
+    "line-input-n": ["LINE INPUT {1}, S$"], "put-n": ["PUT {1}, 1"], "field-n": ["FIELD {1}, 4 AS F$"], "print-using-n": ['PRINT {1}, USING "#"; 1'],
+    "eof-n": ["PRINT EOF({1})"], "open-as-n": ['OPEN "T.TXT" FOR OUTPUT AS {1}', "CLOSE"],
     "fixed-member": ["Rec.S = {1}", "PRINT Rec.S; LEN(Rec.S)"], "fixed-var": ["DIM Fx AS STRING * 3", "Fx = {1}", "PRINT Fx; LEN(Fx)"],
     "fixed-lset": ['OPEN "R.DAT" FOR RANDOM AS #1 LEN = 4', "FIELD #1, 4 AS F$", "LSET F$ = {1}", "PRINT F$; LEN(F$)"],
     "using-field": ['PRINT USING "\\ \\"; {1}'], "using-bang": ['PRINT USING "!"; {1}'], "fixed-input": ["INPUT Rec.S", "PRINT Rec.S; {1}"],
